@@ -76,7 +76,7 @@ def run(ctx):
     # every start vertex of the cap faces, against the exact values (which do not depend on the labelling)
     prism_eval.t1(ctx, 8, 0, "Named", [1, 3])
     if not quick:
-        prism_eval.t1(ctx, 3, 6, None, [2], relabel=True)
+        prism_eval.t1(ctx, 2, 6, None, [2], relabel=False)
     precs = prism_eval.emit(ctx, 8, 0, "NamedSmall" if quick else "Named", [2] if quick else [1, 3])
     grown = prism_eval.emit(ctx, 4, 10, "Tri0", [1], simulate=2 if quick else 12, depth=9)
     precs += prism_eval.pick(grown, 10 if quick else 150, ctx.seed)
@@ -99,6 +99,10 @@ def replay(rec):
     from ..pool import _init
     _init()
     from ..runner import Ctx
+    if "case" in rec["detail"] and "job" not in rec["detail"]:
+        case = rec["detail"]["case"]
+        fn = prism_eval.eval_case if "top" in case.get("rec", {}) else tri_eval.eval_case
+        return [f"{s['cls']}.{s['obs']}: {s['msg']}" for s, _ in fn(case)[0]]
     job = rec["detail"]["job"]
     job["kind"] = ce.lawtable(Ctx("C09", "quick"), True)
     return [f"{s['cls']}.{s['obs']}: {s['msg']}" for s, _ in ce.eval_case(job)[0]]
